@@ -7,16 +7,26 @@ import json
 from gen_engine import T0, rfc
 
 
-def gen_full(rng, size="small"):
+def as_list(x):
+    if x is None:
+        return []
+    return list(x) if isinstance(x, list) else [x]
+
+
+def gen_full(rng, size="small", force=None):
     p = lambda x: rng.random() < x  # noqa: E731
     n = rng.randint(1, 8 if size == "small" else 16)
+    if force and force.get("dag"):
+        n = rng.randint(5, 12)
     nv = rng.randint(1, 3 if size == "small" else 5)
     use_matrix = p(0.8)
     td = use_matrix and p(0.25)
     N = n + 2 * nv
     F = {k: p(q) for k, q in dict(capacity=.6, windows=.5, precedence=.4, groups=.3, alternates=.25, mixing=.3, initial=.3,
                                   dur_groups=.3, multipliers=.4, targets=.3, minstops=.25, limits=.5, attrs=.3,
-                                  defaults=.15, custom=.3, sparse=.5).items()}
+                                  defaults=.15, custom=.3, sparse=.5, dag=.35).items()}
+    if force:
+        F.update(force)
     stops = []
     for i in range(n):
         s = {"id": "s%d" % i, "location": {"lon": 7.0 + 0.01 * i, "lat": 51.0 + 0.005 * (i % 4)}}
@@ -55,7 +65,29 @@ def gen_full(rng, size="small"):
                 a["precedes"] = b["id"]
         if len(mixed) % 2 == 1:
             del mixed[-1]["mixing_items"]
-    if F["precedence"] and n >= 2:
+    if F["precedence"] and n >= 3 and F["dag"]:
+        # precedence DAG over a random order: chains, forks and joins, relations listed in an order that
+        # makes the factory open several chains first and merge them later; precedes/succeeds mixed, lists
+        ids = [i for i in range(n) if "precedes" not in stops[i]]
+        rng.shuffle(ids)
+        edges = []
+        for _ in range(rng.randint(2, max(2, min(len(ids), 8)))):
+            if len(ids) < 2:
+                break
+            i, j = sorted(rng.sample(range(len(ids)), 2))
+            if (ids[i], ids[j]) not in edges:
+                edges.append((ids[i], ids[j]))
+        for a, b in edges:
+            direct = p(0.15)
+            if p(0.5):
+                tgt = {"id": stops[b]["id"], "direct": True} if direct else stops[b]["id"]
+                cur = stops[a].get("precedes")
+                stops[a]["precedes"] = tgt if cur is None and p(0.6) else as_list(cur) + [tgt]
+            else:
+                src = {"id": stops[a]["id"], "direct": True} if direct else stops[a]["id"]
+                cur = stops[b].get("succeeds")
+                stops[b]["succeeds"] = src if cur is None and p(0.6) else as_list(cur) + [src]
+    elif F["precedence"] and n >= 2:
         ids = list(range(n))
         rng.shuffle(ids)
         k = 0
@@ -132,7 +164,11 @@ def gen_full(rng, size="small"):
             if p(0.6):
                 ve["alternate_stops"] = rng.sample([a["id"] for a in alts], rng.randint(1, nalt))
     if F["initial"]:
-        free = [s["id"] for s in stops if "precedes" not in s and "succeeds" not in s and
+        tied = set()
+        for s in stops:
+            for t in as_list(s.get("precedes")) + as_list(s.get("succeeds")):
+                tied.add(t["id"] if isinstance(t, dict) else t)
+        free = [s["id"] for s in stops if "precedes" not in s and "succeeds" not in s and (s["id"] not in tied or p(0.5)) and
                 not any(s["id"] in g for g in inp.get("stop_groups", []))]
         rng.shuffle(free)
         for ve in vehicles:
